@@ -33,19 +33,24 @@ RULE_TAG = "pkg.onnxscript.rewriter.rule_name"
 # ------------------------------------------------------------------------------------------------
 # gamma: abstract case -> real model and real rules
 # ------------------------------------------------------------------------------------------------
-def _vi(name, kind):
+NOSHAPE = [False]   # hosts of the Mul1v family (a constant of shape [1]): float outputs are declared without a shape
+
+
+def _vi(name, kind, out=False):
     import onnx
     from onnx import TensorProto, helper
 
     t = {"f": TensorProto.FLOAT, "b": TensorProto.BOOL, "i": TensorProto.INT64}[kind]
-    return helper.make_tensor_value_info(name, t, [])
+    return helper.make_tensor_value_info(name, t, None if (out and NOSHAPE[0] and kind == "f") else [])
 
 
 def _init(name, k):
     import numpy as np
     from onnx import numpy_helper
 
-    if name == "trip":
+    if name == "one1":      # the constant 1 of shape [1]: NOT what the scalar 1 of a pattern denotes
+        arr = np.array([k], dtype=np.float32)
+    elif name == "trip":
         arr = np.array(k, dtype=np.int64)
     elif name == "ctrue":
         arr = np.array(bool(k))
@@ -84,16 +89,17 @@ def _graph(gj, name):
         outs = [_vi(gj["outs"][0], "b"), _vi(gj["outs"][1], "f")]
     elif kind == "main":
         ins = [_vi(gj["ins"][0], "f"), _vi(gj["ins"][1], "f"), _vi(gj["ins"][2], "b")]
-        outs = [_vi(o, "f") for o in gj["outs"]]
+        outs = [_vi(o, "f", out=True) for o in gj["outs"]]
     else:
         ins = []
-        outs = [_vi(o, "f") for o in gj["outs"]]
+        outs = [_vi(o, "f", out=True) for o in gj["outs"]]
     return helper.make_graph(_nodes(gj), name, ins, outs, initializer=[_init(i["name"], i["k"]) for i in gj["inits"]])
 
 
 def build_model(mj):
     from onnx import helper
 
+    NOSHAPE[0] = any(i["name"] == "one1" for i in mj["graph"]["inits"])
     g = _graph(mj["graph"], "main")
     fns = []
     for f in mj["funcs"]:
@@ -393,9 +399,16 @@ def _run_all(model):
 
         sess = core.ort_session(onnx.inliner.inline_local_functions(model))
     out = []
+    shapes = []
     for inp in INPUTS:
-        out.append([int(x) if float(x) == int(x) else float(x) for x in (float(v) for v in sess.run(None, _feeds(inp)))])
+        got = sess.run(None, _feeds(inp))
+        out.append([int(x) if float(x) == int(x) else float(x) for x in (float(v.reshape(-1)[0]) for v in got)])
+        shapes.append([list(v.shape) for v in got])
+    SHAPES[0] = shapes
     return out
+
+
+SHAPES = [None]   # run-time output shapes of the last _run_all (every value of the spec is one number; the shape is compared before/after)
 
 
 def run_case(c):
@@ -410,6 +423,7 @@ def run_case(c):
         model = build_model(c["orig"])
         onnx.checker.check_model(model, full_check=True)
         before = _run_all(model)
+        before_shapes = SHAPES[0]
     except Exception as e:  # noqa: BLE001 - the host itself is not usable: machinery
         return {"machinery": f"host model rejected: {type(e).__name__}: {str(e)[:300]}"}
     res["before"] = before
@@ -459,6 +473,8 @@ def run_case(c):
         if res["after"] != before:
             k = next(i for i in range(len(INPUTS)) if res["after"][i] != before[i])
             res["prop"].append(f"not equivalent: input (a,b,c)={INPUTS[k]} gives {before[k]} before and {res['after'][k]} after")
+        elif SHAPES[0] != before_shapes:
+            res["prop"].append(f"not equivalent: run-time output shapes {before_shapes[0]} before and {SHAPES[0][0]} after")
     except Exception as e:  # noqa: BLE001
         res["prop"].append(f"ONNX Runtime rejects the result: {str(e)[:200]}")
     # signature
